@@ -243,6 +243,8 @@ def _inline_sync(B, bb, F):
         return False
     off_l = len(B.locals)
     off_b = len(B.blocks)
+    if not hasattr(B, "orig_nblocks"):
+        B.orig_nblocks = off_b
     gmap = _unify_generics(B, t["args"], F)
     for l in F.locals:
         nl = _subst_generics(dict(l), gmap)
@@ -345,6 +347,8 @@ def _inline_async(B, prog, poll_bb, F, G):
 
     off_l = len(B.locals)
     off_b = len(B.blocks)
+    if not hasattr(B, "orig_nblocks"):
+        B.orig_nblocks = off_b
     for l in G.locals:
         nl = dict(l)
         nl["inl"] = G.path
